@@ -514,29 +514,4 @@ Proof. split; eexists; (split; [vm_compute; reflexivity | vm_compute; lia]). Qed
 Example ex_recycler : exists fuel th ds, nth_error (s_thr (ex_state fuel)) 0%nat = Some th /\ t_pc th = PRelErase 0%nat ds.
 Proof. exists 28%nat. vm_compute. eexists; eexists; split; reflexivity. Qed.
 
-(* ================================================================ clauses stated, NOT yet proved *)
-(* The constructor is never running twice at once for one key.  It follows from the invariant
-   "a thread at PAcqCheck/PAcqCtor/PAcqUnlock i is the owner i_mtx of item i" (one more inductive clause over
-   the same `step`; the hand-off in PAcqUnlock gives the mutex to the head sleeper, whose pc is PAcqSleepM
-   until it observes itself as owner) together with one_object_per_key.  Checked on every implementation trace
-   by the python oracle (events c/C).  *)
-Definition oc_ctor_exclusive_stmt : Prop :=
-  forall now life lim progs s t1 t2 th1 th2 i1 i2 ok1 y1 ok2 y2 it1 it2,
-    reachable (init_state now life lim progs) s ->
-    nth_error (s_thr s) t1 = Some th1 -> nth_error (s_thr s) t2 = Some th2 ->
-    t_pc th1 = PAcqCtor i1 ok1 y1 -> t_pc th2 = PAcqCtor i2 ok2 y2 ->
-    nth_error (s_items s) i1 = Some it1 -> nth_error (s_items s) i2 = Some it2 -> i_key it1 = i_key it2 -> t1 = t2.
-(* A failed construction does not poison: an item nobody references carries _failure = 0 (ref_release:138 resets it
-   with the last reference), so the next acquirer's test `_failure <= now - cooldown` (:111) succeeds whatever the
-   cooldown; and while references remain, _failure <= now, so the test succeeds once `cooldown` has elapsed. *)
-Definition oc_failure_not_poisoning_stmt : Prop :=
-  forall now life lim progs s i it, 0 <= now ->
-    reachable (init_state now life lim progs) s -> nth_error (s_items s) i = Some it -> i_live it = true ->
-    0 <= i_failure it <= s_now s /\ (i_ref it = 0 -> i_recycle it = None -> i_failure it = 0).
-(* expiry takes only old items (or items beyond the size limit): an item in the expiry list has
-   _timeout = sat_add(time of its last release, lifespan), and expire():57 unlinks x only if that is < now or
-   _set.size() > _num_limit *)
-Definition oc_expire_only_old_stmt : Prop :=
-  forall now life lim progs s i it,
-    reachable (init_state now life lim progs) s -> In i (s_list s) -> nth_error (s_items s) i = Some it ->
-    i_expire it = sat_add (i_relt it) (s_lifespan s) /\ i_relt it <= s_now s.
+(* oc_ctor_exclusive: C19_Mtx.v.  oc_expire_only_old, oc_failure_not_poisoning: C19_Time.v. *)
